@@ -34,6 +34,26 @@ from kmip.core import exceptions
 from kmip.services.server.crypto import api
 
 
+def _report_library_errors(function):
+    """
+    Report an error raised by the underlying cryptographic library (e.g.,
+    an invalid IV size, undecryptable data, an authentication tag mismatch,
+    an out-of-range derivation parameter) as a CryptographicFailure.
+    """
+    def wrapper(self, *args, **kwargs):
+        try:
+            return function(self, *args, **kwargs)
+        except exceptions.KmipError:
+            raise
+        except Exception as e:
+            raise exceptions.CryptographicFailure(
+                "The cryptographic operation failed: {0}".format(
+                    type(e).__name__
+                )
+            )
+    return wrapper
+
+
 class CryptographyEngine(api.CryptographicEngine):
     """
     A cryptographic engine that uses pyca/cryptography to generate
@@ -285,6 +305,7 @@ class CryptographyEngine(api.CryptographicEngine):
             )
         return mac_data
 
+    @_report_library_errors
     def encrypt(self,
                 encryption_algorithm,
                 encryption_key,
@@ -645,6 +666,7 @@ class CryptographyEngine(api.CryptographicEngine):
                 )
         return plain_text
 
+    @_report_library_errors
     def decrypt(self,
                 decryption_algorithm,
                 decryption_key,
@@ -1024,6 +1046,7 @@ class CryptographyEngine(api.CryptographicEngine):
 
         return public_key, private_key
 
+    @_report_library_errors
     def derive_key(self,
                    derivation_method,
                    derivation_length,
